@@ -427,10 +427,18 @@ func scalarReflectFromGo(schema *schema_j5pb.Field, value interface{}) (protoref
 	}
 }
 
+// maxDecimalExponent bounds the exponent of decimals read from text. The value
+// is stored in plain notation, so "1e999999999" would otherwise expand to a
+// gigabyte of digits.
+const maxDecimalExponent = 4096
+
 func decimalFromString(val string) (protoreflect.Value, error) {
 	d, err := decimal.NewFromString(val)
 	if err != nil {
 		return protoreflect.Value{}, err
+	}
+	if exp := d.Exponent(); exp > maxDecimalExponent || exp < -maxDecimalExponent {
+		return protoreflect.Value{}, fmt.Errorf("decimal exponent %d is out of range", exp)
 	}
 	msg := decimal_j5t.FromShop(d)
 	return protoreflect.ValueOfMessage(msg.ProtoReflect()), nil
